@@ -131,18 +131,56 @@ def _table_driven(prog, f, ex, op, prims, lhs_pay, rhs_pay):
     return (False, "result: the overflow (None) answer of %s does not lead to IntOverflow" % name, pc.loc)
 
 
+def closure_optable(ctx):
+    """The operator table over a deeper view of the operator function: its
+    private helpers *and its own closures* inlined at their call sites
+    (`checked_int(a.checked_add(*b), a, b)` becomes the match it abbreviates)."""
+    def mk():
+        import inline
+        ot = optable(ctx)
+        if ot is None:
+            return None
+        f, op_p, lhs_p, rhs_p, _ = ot
+        base = getattr(f, "base", f)
+        v = inline.view(ctx.prog, base, closures=True)
+        if v is base or v is f:
+            return None
+        pt = ops.PairTable(ctx.prog, v, [(op_p, BINOP), (lhs_p, VALUE), (rhs_p, VALUE)])
+        return (v, op_p, lhs_p, rhs_p, pt)
+    return ctx.memo("closure_optable", mk)
+
+
+R06_1_USED = [None]
+
+
 def rule_R06_1(ctx):
+    ot = optable(ctx)
+    r = _rule_R06_1_on(ctx, ot)
+    R06_1_USED[0] = ot
+    if r.violations and ot is not None:
+        ot2 = closure_optable(ctx)
+        if ot2 is not None:
+            r2 = _rule_R06_1_on(ctx, ot2)
+            if not r2.violations:
+                r2.notes.append("decided on the view of %s with its closures and private helpers inlined (%s)"
+                                % (ot2[0].path, sorted(getattr(ot2[0], "members", []))))
+                R06_1_USED[0] = ot2
+                return r2
+    return r
+
+
+def _rule_R06_1_on(ctx, ot):
     prog = ctx.prog
     r = RuleResult("R06.1", "operator<->checked primitive table with "
                    "overflow-to-error for Int x Int",
                    "a different primitive, swapped operands, or a default on "
                    "overflow gives a wrong or silently wrapped result")
-    ot = optable(ctx)
     if ot is None:
         r.anchor_missing("operator function (one BinaryOp and two Value "
                          "parameters switched on)")
         return r
     f, op_p, lhs_p, rhs_p, pt = ot
+    members = getattr(f, "members", {f.path})
     lhs_pay = ops.payload_path(lhs_p, "Int")
     rhs_pay = ops.payload_path(rhs_p, "Int")
     for op, prims in EXPECTED_PRIM.items():
@@ -318,8 +356,8 @@ def rule_R06_1(ctx):
                        "`rhs == 0` test guards it", where=c.loc)
                 continue
             _, zero_t, nz_t = guard
-            zr = f.reach_from(zero_t, avoid=[nz_t]) & ex
-            nr = f.reach_from(nz_t, avoid=[zero_t]) & ex
+            zr = mir.flag_reach(f, zero_t, avoid=[nz_t]) & ex
+            nr = mir.flag_reach(f, nz_t, avoid=[zero_t]) & ex
             direct = any(_constructs_overflow(prog, f, bb) for bb in zr)
             via_none = False
             if not direct:
@@ -354,7 +392,7 @@ def rule_R06_1(ctx):
                        where=c.loc)
     # the overflow error constructor keeps (lhs, rhs) order
     n_sites = 0
-    for g in prog.closures_of(f.path) + [f]:
+    for g in [g for g in prog.closures_of(f.path) if g.path not in members] + [f]:
         for bb, i, pl, kd, aops, sp in g.aggregates(ERR, "IntOverflow"):
             n_sites += 1
             fields = kd["fields"]
@@ -394,7 +432,7 @@ def rule_R06_2(ctx):
                    "overflowing/unchecked, raw operators) in hand-written code",
                    "such a primitive yields a wrapped or saturated result "
                    "instead of an error")
-    ot = optable(ctx)
+    ot = R06_1_USED[0] or optable(ctx)
     allowed_fn = ot[0].path if ot else None
     allowed_members = getattr(ot[0], "members", {allowed_fn}) if ot else set()
     n = 0
@@ -407,7 +445,7 @@ def rule_R06_2(ctx):
                 n += 1
             if INEXACT.match(c.res or ""):
                 name = m.group(1)
-                if name == "wrapping_rem" and _exact_rem_ok(f) and f.path in prog.addr_taken():
+                if name == "wrapping_rem" and _exact_rem_ok(f):
                     r.inst("%s: wrapping_rem inside a verified exact-remainder function (None iff divisor 0)" % f.path)
                     r.ok()
                     continue
